@@ -16,6 +16,10 @@ Continuation of Props/PyLegacy.lean: more methods of the legacy `DSD_Complex` AS
         the six caches are `None` and the translated `get_paired_loc`, `get_loop_index`, `get_domain`, `exterior_domains`,
         `enclosed_domains`, `strand_length` answer like the current API on the turned representation (error kinds bridged by
         `errOf_plain`: these views raise only SecondaryStructureError / interpreter faults, on which both namings agree)
+  `py_rotate_pairtable_loc_eq`, `py_legacy_rotate_pairtable_loc_sign`
+        `rotate_pairtable_loc(loc, n)` with its nested `wrap`, ints of either sign and `n = None` = `LObj.rotatePairtableLoc`
+        for EVERY object (`size` is read up to three times by the code and once by the model: `size_idem`); transferred
+        C20V.legacy_rotate_pairtable_loc_eq: the legacy method as written ADDS `n` where the current API subtracts it
   `py_inv_new`, `py_inv_run`
         `Inv` holds for what `__init__` assigns and after EVERY sequence of the modelled state-changing methods (`Op2`)
   `py_exterior_needs_liOk`, `py_enclosed_needs_enOk`
@@ -26,6 +30,7 @@ import DsdVerif.Props.PyLegacy
 import DsdVerif.Lemmas.PyLegacyInv
 import DsdVerif.Lemmas.PyLegacyKernel
 import DsdVerif.Lemmas.PyLegacyPlain
+import DsdVerif.Lemmas.PyLegacyWrap
 
 namespace Dsd.PyLegacy
 open Dsd Dsd.Gen Dsd.Lg
@@ -44,7 +49,7 @@ theorem py_inv_ptOk (o : LObj) (h : Inv o) : PtOk o := h.pt
 /-- the state-changing methods of the model whose translations are proved equal to it -/
 inductive Op2
   | rot | size | strandLength (k : Nat) | getDomain (l : Locus) | getPairedLoc (l : Locus) | loopIndex | getLoopIndex (l : Locus)
-  | isConnected | exteriorDomains | enclosedDomains
+  | isConnected | exteriorDomains | enclosedDomains | rotatePairtableLoc (l : Int × Nat) (n : Option Int)
 
 def Op2.run (o : LObj) : Op2 → LObj
   | .rot => o.rotateOnce.1
@@ -57,6 +62,7 @@ def Op2.run (o : LObj) : Op2 → LObj
   | .isConnected => o.isConnected.1
   | .exteriorDomains => o.exteriorDomainsView.1
   | .enclosedDomains => o.enclosedDomainsView.1
+  | .rotatePairtableLoc l n => (o.rotatePairtableLoc l n).1
 
 theorem py_inv_new (id : Nat) (name : String) (seq : List String) (sst : List Char) (mc : Bool) :
     Inv { id := id, name := name, seq := seq, sst := sst, memorycheck := mc } := inv_new id name seq sst mc
@@ -73,6 +79,7 @@ theorem py_inv_step (o : LObj) (h : Inv o) (op : Op2) : Inv (op.run o) := by
   · exact inv_isConnected o h
   · exact inv_exteriorDomainsView o h
   · exact inv_enclosedDomainsView o h
+  · exact inv_size o h
 
 /-- `Inv` holds after every sequence of these methods on a new object: the hypothesis of the equality theorems is met along
     every history (the remaining views - `sequence`, `structure`, `pair_table`, `lol_sequence`, `kernel_string` - do not change the object) -/
@@ -115,6 +122,25 @@ theorem py_kernel_string_eq (o : LObj) : (py_DSD_Complex_kernel_string).exec (of
 theorem py_legacy_kernel_string_eq_current (o : LObj) (h : o.seq.length = o.sst.length) :
     (py_DSD_Complex_kernel_string).exec (ofL o) = (.ok (Dsd.kernelString o.seq o.sst).toList, ofL o) := by
   rw [py_kernel_string_eq, LgL.kernelString_eq o h]; rfl
+
+/-! ### `rotate_pairtable_loc` -/
+
+/-- **`rotate_pairtable_loc` as written is the model's `rotatePairtableLoc`**, for every object, every locus with a strand index
+    of either sign, every `n` (an int of either sign or `None`); ZeroDivisionError for an object without strands on both sides -/
+theorem py_rotate_pairtable_loc_eq (o : LObj) (loc : Int × Nat) (n : Option Int) :
+    (py_DSD_Complex_rotate_pairtable_loc loc n).exec (ofL o) = locAns (o.rotatePairtableLoc loc n) :=
+  exec_rotate_pairtable_loc o loc n
+
+/-- transferred (C20V.legacy_rotate_pairtable_loc_eq): on an object with empty strand caches and at least one strand the legacy
+    method as written answers the current API's `rotate_pairtable_loc(loc, −n)` - the sign convention differs -/
+theorem py_legacy_rotate_pairtable_loc_sign (o : LObj) (h1 : o.strandLengths = none) (h2 : o.lolSequence = none)
+    (l : Locus) (n : Int) (hpos : 0 < (makeStrandTableList "+" o.seq).length) :
+    ((py_DSD_Complex_rotate_pairtable_loc ((l.1 : Int), l.2) (some n)).exec (ofL o)).1 =
+      .ok (Int.ofNat (C07.rotLoc (makeStrandTableList "+" o.seq).length (-n) l).1,
+           (C07.rotLoc (makeStrandTableList "+" o.seq).length (-n) l).2) := by
+  rw [py_rotate_pairtable_loc_eq]
+  unfold locAns
+  rw [C20V.legacy_rotate_pairtable_loc_eq o h1 h2 l n hpos]
 
 /-! ### transferred: all of `legacy_views_after_rotate_once` -/
 
@@ -188,6 +214,8 @@ theorem py_views_after_rotate_once (o : LObj) (h : o.seq.length = o.sst.length) 
     rw [py_strand_length_eq, ← c6 k]
     exact bridge_nat _ (fun e he => strandLength_plain _ _ e he)
 
+#print axioms py_rotate_pairtable_loc_eq
+#print axioms py_legacy_rotate_pairtable_loc_sign
 #print axioms py_views_after_rotate_once
 #print axioms py_kernel_string_eq
 #print axioms py_legacy_kernel_string_eq_current
